@@ -1,4 +1,6 @@
 """C05 generator (isolation part): thresholds 1..5, several rules, batches 1..4, up to 6 simultaneously open entries."""
+import importlib.util as _ilu, os as _os
+_ms = _ilu.spec_from_file_location("worldmix", _os.path.join(_os.path.dirname(__file__), "worldmix.py")); MIX = _ilu.module_from_spec(_ms); _ms.loader.exec_module(MIX)
 LEVEL = "proof"
 MODEL = "lean/Sentinel/World.lean (isoCheck, World.build/exit)"
 RULE = ("1-3 isolation rules (threshold 1..5) on one or two resources, batches 1..4 (incl. batch > threshold), build/exit interleavings with up to 6 open "
@@ -85,6 +87,12 @@ def hs_case(rng):
     return ops
 
 
-def gen(rng, tier):
+def gen_own(rng, tier):
     n = 300 if tier == "quick" else 15000
     return [gen_case(rng) for _ in range(n)] + [hs_case(rng) for _ in range(n)]
+
+
+def gen(rng, tier):
+    """the property's own streams, with every 8th case taken from the shared mixed-world stream (gen/worldmix.py)"""
+    cases = gen_own(rng, tier)
+    return [c if i % 8 != 7 else MIX.gen_mix(rng) for i, c in enumerate(cases)]
